@@ -160,7 +160,17 @@ _RENAMED = {
     "numpy.trapz": "numpy.trapezoid",
     "scipy.integrate.quadrature.cumulative_trapezoid": "scipy.integrate.cumulative_trapezoid",
     "scipy.integrate._quadrature.cumulative_trapezoid": "scipy.integrate.cumulative_trapezoid",
+    "scipy.ndimage.filters.uniform_filter1d": "scipy.ndimage.uniform_filter1d",
+    "scipy.ndimage._filters.uniform_filter1d": "scipy.ndimage.uniform_filter1d",
 }
+
+
+def _parent_of(tree, node):
+    for p in ast.walk(tree):
+        for c in ast.iter_child_nodes(p):
+            if c is node:
+                return p
+    return None
 
 
 def _loop_names(tree, call, var):
@@ -258,6 +268,14 @@ class Program:
                 if isinstance(n, ast.Call) and isinstance(n.func, ast.Name):
                     fid = n.func.id
                     dynamic = fid in ("eval", "exec", "__import__", "globals", "locals", "vars")
+                    if fid == "globals" and not n.args:
+                        # a *read* of one module name (`globals()[name]`, `globals().get(name)` - the PEP 562 alias idiom)
+                        # binds nothing; any other use of the namespace dictionary stays banned
+                        par = _parent_of(m.tree, n)
+                        if isinstance(par, ast.Subscript) and par.value is n and isinstance(par.ctx, ast.Load):
+                            dynamic = False
+                        elif isinstance(par, ast.Attribute) and par.value is n and par.attr == "get" and isinstance(_parent_of(m.tree, par), ast.Call):
+                            dynamic = False
                     if fid in ("setattr", "delattr"):
                         # a constant attribute name is as static as obj.name = v; a computed name defeats the effect analysis
                         dynamic = not (len(n.args) >= 2 and isinstance(n.args[1], ast.Constant) and isinstance(n.args[1].value, str))
